@@ -503,6 +503,19 @@ func (c *LinCtx) linCompute(v ssa.Value, nn nonNegProver) Lin {
 		if c.fitsType(inner, x.Type()) {
 			return inner
 		}
+		if c.rp != nil {
+			// value-preserving when the operand is provably inside the target type at this point
+			lo, hi, hasHi := c.typeBounds(x.Type())
+			if !hasHi {
+				hi = math.MaxInt64 // a 64-bit unsigned target holds every non-negative value of a narrower or signed source
+			}
+			if isUnsignedT(x.Type()) {
+				lo = 0
+			}
+			if c.rp(x, inner, lo, hi) {
+				return inner
+			}
+		}
 		// widening conversions preserve the value regardless of the interval
 		sb, tb := c.bitsOf(x.X.Type()), c.bitsOf(x.Type())
 		su, tu := isUnsignedT(x.X.Type()), isUnsignedT(x.Type())
